@@ -30,7 +30,7 @@ def presented (c : Ctx) : Option Presented :=
 
 /-- `v2_check_header_auth` insists on a time stamp -/
 def hasDate (c : Ctx) : Bool :=
-  !(getAll c.hs (v2b!"date")).isEmpty || (getUnique c.hs (v2b!"x-amz-date")).isSome
+  !(getAll c.hs (v2b!"date")).isEmpty || !(getAll c.hs (v2b!"x-amz-date")).isEmpty
 
 def stsOf (m : Mode) (c : Ctx) : Bytes := stringToSign m c.method c.uriPath c.qs c.hs c.vhBucket
 
@@ -109,7 +109,7 @@ theorem check_accept_iff (hmac : Bytes → Bytes → Bytes) (b64 : Bytes → Byt
         | some x =>
           obtain ⟨ak', sg⟩ := x
           simp only [Option.map_some, checkHeaderAuth]
-          have hd : (!(getAll c.hs (v2b!"date")).isEmpty || (getUnique c.hs (v2b!"x-amz-date")).isSome)
+          have hd : (!(getAll c.hs (v2b!"date")).isEmpty || !(getAll c.hs (v2b!"x-amz-date")).isEmpty)
               = hasDate c := rfl
           rw [hd]
           by_cases hdate : hasDate c = true
